@@ -155,31 +155,27 @@ Proof.
 Qed.
 
 Lemma parse_args_sound fuel : forall n s ln gs s' ln', parse_args fuel n s ln = Ok (gs, (s', ln')) ->
-  exists g, layout_of (flat_map flat_group gs) s (g ++ s') /\ all_space g.
+  layout_of (flat_map flat_group gs) s s'.
 Proof.
   induction n as [|k IH]; intros s ln gs s' ln'; cbn [parse_args].
-  - intros H. injection H as <- <- <-. exists []. split; [constructor|reflexivity].
-  - unfold optional.
-    destruct (get_token [P_LBRACE] false s ln) as [[o [s1 ln1]]|c l| |] eqn:E; cbn [bind]; try discriminate.
-    destruct o as [[p v]|].
-    2:{ intros H. injection H as <- <- <-. destruct (get_token_none _ _ _ _ _ _ E) as (g & -> & Hg).
-        exists g. split; [constructor|exact Hg]. }
-    destruct (get_token_shape _ _ _ _ _ _ _ _ E) as (g & -> & Hg & Hm).
+  - intros H. injection H as <- <- <-. constructor.
+  - destruct (required [P_LBRACE] false s ln) as [[[p v] [s1 ln1]]|c l| |] eqn:E; cbn [bind]; try discriminate.
+    destruct (required_shape _ _ _ _ _ _ _ _ E) as (g & -> & Hg & Hm).
     assert (p = P_LBRACE).
-    { unfold get_token in E. destruct (eat_whitespace (g ++ v ++ s1) ln) as [r l0]. destruct r; [discriminate|].
-      cbn [first_match] in E. destruct (match_pat P_LBRACE (c :: r)) as [[? ?]|]; [|discriminate]. now injection E as <- _ _ _. }
+    { unfold required, get_token in E. destruct (eat_whitespace (g ++ v ++ s1) ln) as [r l0]. destruct r; [discriminate|].
+      cbn [first_match] in E. destruct (match_pat P_LBRACE (c :: r)) as [[? ?]|]; cbn [bind fst snd] in E; [|discriminate].
+      now injection E as <- _ _ _. }
     subst p. apply (proj1 (match_brace_shape _ _ _)) in Hm. subst v.
     destruct (parse_group fuel s1 ln1) as [[grp [s2 ln2]]|c l| |] eqn:E1; cbn [bind]; try discriminate.
     destruct (parse_args fuel k s2 ln2) as [[gs2 [s3 ln3]]|c l| |] eqn:E2; cbn [bind fst snd]; try discriminate.
     intros H. injection H as <- <- <-.
-    destruct (IH _ _ _ _ _ E2) as (g2 & Hlo & Hg2). exists g2. split; [|exact Hg2].
     cbn [flat_map]. unfold flat_group at 1. cbn [app].
     apply (lo_cons g [c_lbrace] LL); [exact Hg|constructor|].
-    eapply lo_app; [apply (parse_group_sound _ _ _ _ _ _ E1)|exact Hlo].
+    eapply lo_app; [apply (parse_group_sound _ _ _ _ _ _ E1)|apply (IH _ _ _ _ _ E2)].
 Qed.
 
 Lemma parse_command_sound fuel s ln c s' ln' : parse_command fuel s ln = Ok (c, (s', ln')) ->
-  exists g, layout_of (flat_command c) s (g ++ s') /\ all_space g.
+  layout_of (flat_command c) s s'.
 Proof.
   unfold parse_command.
   destruct (required [P_NAME] true s ln) as [[[p name] [s1 ln1]]|c0 l| |] eqn:E; cbn [bind]; try discriminate.
@@ -192,7 +188,7 @@ Proof.
   destruct (arity name) as [n|]; [|discriminate].
   destruct (parse_args fuel n s1 ln1) as [[gs [s2 ln2]]|c0 l| |] eqn:Ea; cbn [bind fst snd]; try discriminate.
   intros H. injection H as <- <- <-.
-  destruct (parse_args_sound _ _ _ _ _ _ _ Ea) as (g2 & Hlo & Hg2). exists g2. split; [|exact Hg2].
+  pose proof (parse_args_sound _ _ _ _ _ _ _ Ea) as Hlo.
   unfold flat_command. cbn [fst snd]. constructor; [exact Hg|now constructor|exact Hlo].
 Qed.
 
@@ -214,10 +210,9 @@ Proof.
   destruct (parse_command (S (length s)) s ln) as [[c [s1 ln1]]|c0 l| |] eqn:E; try discriminate.
   - destruct (parse_loop f s1 ln1) as [rest|c0 l| |] eqn:E2; cbn [bind]; try discriminate.
     intros H. injection H as <-.
-    destruct (parse_command_sound _ _ _ _ _ _ E) as (g1 & Hlo & Hg1).
+    pose proof (parse_command_sound _ _ _ _ _ _ E) as Hlo.
     destruct (IH _ _ _ E2) as (gf & Hlo2 & Hgf).
-    destruct (lo_prepend g1 _ _ _ Hg1 Hlo2 Hgf) as (sf & Hlo3 & Hsf).
-    exists sf. split; [|exact Hsf]. unfold flat_program. cbn [flat_map]. eapply lo_app; eassumption.
+    exists gf. split; [|exact Hgf]. unfold flat_program. cbn [flat_map]. eapply lo_app; eassumption.
   - destruct (c0 =? cls_eof) eqn:Ec; [|discriminate]. apply N.eqb_eq in Ec. subst c0.
     intros H. injection H as <-. exists s. split; [constructor|]. eapply parse_command_eof; exact E.
 Qed.
